@@ -13,6 +13,16 @@
 //! one request, a response for a notify, a request skipped while a later one on the same connection was answered,
 //! responses out of arrival order, wrong response fields, handler runs that do not match the responses.
 
+//!
+//! PACED traffic (second class, same servers plus two with a 300 ms timeout): every frame arrives WHOLE, spaced at 10..70 %
+//! of the configured read timeout (never closer than 40 ms to it), for several timeouts in total, with long stretches
+//! (1.3..3 timeouts) of frames that are answered with nothing (notifies, rejected notifies) between requests. The read
+//! timeout bounds how long the server waits for the peer's next bytes, so a connection on which the peer itself measured
+//! no gap longer than 0.8 timeouts (from the start of one write to the completion of the next) must not be ended by
+//! the server: every notify's handler runs exactly once, every request gets exactly one response, the stream stays open
+//! until the peer half-closes. Connections whose measured gaps were longer (peer-side scheduling jitter), or a run in
+//! which the machine stalled, get the lenient oracle above instead. Signatures `C03:<transport>:read-timeout:paced:*`.
+
 use super::cli::{CONNECT_T, EOS_T, End, WAIT_T};
 use super::srv::{self, EV_H, T, Tin, Tout};
 use crate::common::*;
@@ -34,6 +44,8 @@ pub struct RtSrv {
     pub blocking: bool,
     pub d_ms: u64,
     pub addr: SocketAddr,
+    /// used by the paced class only (the cut-frame class keeps its three timeouts)
+    pub paced_only: bool,
 }
 
 impl RtSrv {
@@ -47,12 +59,14 @@ impl RtSrv {
 }
 
 pub const TIMEOUTS_MS: [u64; 3] = [60, 100, 150];
+/// longer timeouts for the paced class (room for spacings of 70 % with a wide margin)
+pub const PACED_EXTRA_MS: [u64; 1] = [300];
 
 pub fn start(rt: &tokio::runtime::Runtime) -> std::io::Result<Vec<RtSrv>> {
     let mut v = vec![];
     let mut sid = 32u8;
-    for blocking in [true, false] {
-        for d_ms in TIMEOUTS_MS {
+    for (blocking, d_ms, paced_only) in [true, false].into_iter().flat_map(|b| TIMEOUTS_MS.into_iter().map(move |d| (b, d, false))).chain([true, false].into_iter().flat_map(|b| PACED_EXTRA_MS.into_iter().map(move |d| (b, d, true)))) {
+        {
             let router = srv::build_router(sid, false, false);
             let d = Some(Duration::from_millis(d_ms));
             let addr = if blocking {
@@ -70,7 +84,7 @@ pub fn start(rt: &tokio::runtime::Runtime) -> std::io::Result<Vec<RtSrv>> {
                 });
                 addr
             };
-            v.push(RtSrv { sid, blocking, d_ms, addr });
+            v.push(RtSrv { sid, blocking, d_ms, addr, paced_only });
             sid += 1;
         }
     }
@@ -726,6 +740,8 @@ fn judge(rep: &mut Report, args: &Args, sc: &Scen, s: &RtSrv, out: &RtOut, stall
 }
 
 pub async fn run(rep: &mut Report, args: &Args, servers: &Arc<Vec<RtSrv>>, hb: &Heartbeat, n: u64, deadline: Duration) {
+    let servers: Arc<Vec<RtSrv>> = Arc::new(servers.iter().filter(|s| !s.paced_only).cloned().collect());
+    let servers = &servers;
     let mut rng = Rng::new(args.seed ^ 0xC03_0071);
     let in_flight = 160usize;
     let mut pending: std::collections::VecDeque<(Scen, tokio::task::JoinHandle<RtOut>)> = Default::default();
@@ -760,5 +776,424 @@ pub async fn run(rep: &mut Report, args: &Args, servers: &Arc<Vec<RtSrv>>, hb: &
     }
     if rep.get_count("rt.scenarios") == 0 {
         rep.inconclusive("read-timeout class: no scenario executed");
+    }
+}
+
+// ------------------------------------------------------------------ paced traffic (whole frames, spaced inside the timeout)
+
+struct PFrame {
+    /// planned pause before this frame is written
+    gap_ms: u64,
+    wire: Vec<u8>,
+    sent: Sent,
+}
+
+struct PScen {
+    idx: u64,
+    srv: usize,
+    frames: Vec<PFrame>,
+    /// longest planned stretch (ms) without a frame that is answered
+    longest_silent_stretch_ms: u64,
+    planned_ms: u64,
+}
+
+impl PScen {
+    fn desc(&self, s: &RtSrv) -> Value {
+        json!({
+            "paced_scenario": self.idx, "server": s.name(), "read_timeout_ms": s.d_ms, "planned_duration_ms": self.planned_ms,
+            "longest_planned_stretch_without_answered_frame_ms": self.longest_silent_stretch_ms,
+            "frames": self.frames.iter().map(|f| json!({"pause_before_ms": f.gap_ms, "role": f.sent.role, "id": f.sent.id, "token": f.sent.token, "notify": f.sent.notify, "query": String::from_utf8_lossy(&f.sent.query[..f.sent.query.len().min(40)]), "len": f.sent.len, "wire_hex": hex_trunc(&f.wire, 120)})).collect::<Vec<_>>(),
+        })
+    }
+}
+
+/// One whole frame of the given role: "request" (answered, handler runs), "rejected-request" (answered with an error code),
+/// "notify" (handler runs, nothing answered), "rejected-notify" (unknown path / unsupported version with the notify flag
+/// set: nothing runs, nothing is answered).
+fn paced_frame(role: &'static str, token: u64, rng: &mut Rng) -> (Vec<u8>, Sent) {
+    let id = super::gen_::id_of(token);
+    let t = *rng.pick(&[T::Json, T::Typed, T::Jth, T::JCtx, T::BJson, T::RegFn]);
+    let r = Tin { t: token, op: 0, c: 0, pad: small_pad(rng) };
+    let body = serde_json::to_vec(&r).unwrap();
+    let notify = (role == "notify" || role == "rejected-notify") as u8;
+    match role {
+        "request" | "notify" => {
+            let q = t.path().as_bytes().to_vec();
+            let w = oracle::frame(hdr(id, notify, 1, 1, 2), &q, &body);
+            let len = w.len();
+            let exp = if notify == 1 { Exp::Code(vec![]) } else { Exp::Record(Tout { t: token, r: t.path().to_string(), pad: r.pad.clone(), fail: 0 }) };
+            (w, Sent { role, id, token, notify, query: q, invoked: true, route: Some(t), exp, len })
+        }
+        _ => {
+            let (q, version, code) = if rng.coin() { (b"/nosuch/paced".to_vec(), 1u8, 6u32) } else { (t.path().as_bytes().to_vec(), *rng.pick(&[0u8, 2, 0xff]), 1u32) };
+            let w = oracle::frame(hdr(id, notify, version, 1, 2), &q, &body);
+            let len = w.len();
+            (w, Sent { role, id, token, notify, query: q, invoked: false, route: None, exp: Exp::Code(if notify == 1 { vec![] } else { vec![code] }), len })
+        }
+    }
+}
+
+fn gen_paced(idx: u64, servers: &[RtSrv], rng: &mut Rng) -> PScen {
+    let srv = (idx as usize) % servers.len();
+    let d = servers[srv].d_ms;
+    let mut tok = (1u64 << 41) + idx * 256;
+    // one spacing class per stretch: 10..70 % of the timeout, never closer than 40 ms to it
+    let spacing = |rng: &mut Rng| -> u64 { (d * (10 + rng.below(61)) / 100).min(d.saturating_sub(40)).max(4) };
+    let mut frames: Vec<PFrame> = vec![];
+    let mut push = |frames: &mut Vec<PFrame>, role: &'static str, gap_ms: u64, rng: &mut Rng| {
+        let (wire, sent) = paced_frame(role, tok, rng);
+        tok += 1;
+        frames.push(PFrame { gap_ms, wire, sent });
+    };
+    let g0 = spacing(rng);
+    for _ in 0..rng.usize_below(3) {
+        let role = if rng.chance(1, 4) { "rejected-request" } else { "request" };
+        push(&mut frames, role, g0, rng);
+    }
+    let mut longest = 0u64;
+    for _ in 0..1 + rng.usize_below(2) {
+        // a stretch of 1.3 .. 3 timeouts in which nothing is answered
+        let want = d * (130 + rng.below(171)) / 100;
+        let g = spacing(rng);
+        let kind = rng.below(3); // 0: notifies, 1: rejected notifies, 2: both
+        let mut t = 0u64;
+        while t < want && frames.len() < 200 {
+            let role = match kind {
+                0 => "notify",
+                1 => "rejected-notify",
+                _ => {
+                    if rng.coin() { "notify" } else { "rejected-notify" }
+                }
+            };
+            push(&mut frames, role, g, rng);
+            t += g;
+        }
+        longest = longest.max(t + g);
+        let role = if rng.chance(1, 5) { "rejected-request" } else { "request" };
+        push(&mut frames, role, g, rng);
+        if rng.coin() {
+            // paced request/response traffic in between
+            for _ in 0..1 + rng.usize_below(3) {
+                push(&mut frames, "request", g, rng);
+            }
+        }
+    }
+    let planned_ms = frames.iter().map(|f| f.gap_ms).sum();
+    PScen { idx, srv, frames, longest_silent_stretch_ms: longest, planned_ms }
+}
+
+struct POut {
+    out: RtOut,
+    /// per frame: (ms offset at which its write started, ms offset at which it completed); offsets from just before connect()
+    writes: Vec<(u64, u64)>,
+    /// ms offset at which the peer saw the end of the stream (or a transport error)
+    eos_ms: Option<u64>,
+    /// ms offset at which the peer half-closed
+    shutdown_ms: Option<u64>,
+}
+
+async fn paced_conn(addr: SocketAddr, frames: Vec<(u64, Vec<u8>)>) -> POut {
+    let t0 = Instant::now();
+    let ms = move || t0.elapsed().as_millis() as u64;
+    let harness = |e: String| POut { out: RtOut { frames: vec![], end: End::Harness(e), tail: StreamTail::Clean, bytes: 0, closed_before_send: vec![], write_error: None }, writes: vec![], eos_ms: None, shutdown_ms: None };
+    let stream = match timeout(CONNECT_T, tokio::net::TcpStream::connect(addr)).await {
+        Ok(Ok(s)) => s,
+        Ok(Err(e)) => return harness(format!("connect: {e}")),
+        Err(_) => return harness("connect timeout".into()),
+    };
+    let _ = stream.set_nodelay(true);
+    let (mut rd, mut wr) = stream.into_split();
+    let eos = Arc::new(AtomicBool::new(false));
+    let done = Arc::new(AtomicBool::new(false));
+    let (eos_w, done_w) = (eos.clone(), done.clone());
+    let writer = async move {
+        let mut closed_before_send = vec![];
+        let mut write_error = None;
+        let mut writes = vec![];
+        for (i, (gap, b)) in frames.iter().enumerate() {
+            tokio::time::sleep(Duration::from_millis(*gap)).await;
+            closed_before_send.push((i, eos_w.load(Ordering::SeqCst)));
+            let a = ms();
+            match timeout(WAIT_T, wr.write_all(b)).await {
+                Ok(Ok(())) => writes.push((a, ms())),
+                Ok(Err(e)) => {
+                    write_error = Some((i, e.to_string()));
+                    break;
+                }
+                Err(_) => {
+                    write_error = Some((i, "write blocked".to_string()));
+                    break;
+                }
+            }
+        }
+        let shutdown_ms = ms();
+        let _ = wr.shutdown().await;
+        done_w.store(true, Ordering::SeqCst);
+        (wr, closed_before_send, write_error, writes, shutdown_ms)
+    };
+    let reader = async move {
+        let mut buf: Vec<u8> = Vec::new();
+        let mut tmp = vec![0u8; 16384];
+        let mut done_at: Option<Instant> = None;
+        let end;
+        loop {
+            match timeout(Duration::from_millis(200), rd.read(&mut tmp)).await {
+                Err(_) => {
+                    if done.load(Ordering::SeqCst) {
+                        let t = *done_at.get_or_insert_with(Instant::now);
+                        if t.elapsed() > EOS_T {
+                            end = End::Timeout;
+                            break;
+                        }
+                    }
+                }
+                Ok(Ok(0)) => {
+                    end = End::Eos;
+                    break;
+                }
+                Ok(Ok(k)) => buf.extend_from_slice(&tmp[..k]),
+                Ok(Err(e)) => {
+                    end = End::Unclean(e.to_string());
+                    break;
+                }
+            }
+        }
+        let eos_ms = if end == End::Timeout { None } else { Some(ms()) };
+        eos.store(true, Ordering::SeqCst);
+        (buf, end, eos_ms)
+    };
+    let ((_wr, closed_before_send, write_error, writes, shutdown_ms), (buf, end, eos_ms)) = tokio::join!(writer, reader);
+    let (frames, tail) = oracle::parse_stream(&buf);
+    POut { out: RtOut { frames, end, tail, bytes: buf.len(), closed_before_send, write_error }, writes, eos_ms, shutdown_ms: Some(shutdown_ms) }
+}
+
+/// The paced connections in flight (they mostly sleep, so they run next to the cut-frame class).
+pub struct Paced {
+    servers: Arc<Vec<RtSrv>>,
+    runs: Vec<(PScen, tokio::task::JoinHandle<POut>)>,
+}
+
+pub fn spawn_paced(args: &Args, servers: &Arc<Vec<RtSrv>>) -> Paced {
+    let mut rng = Rng::new(args.seed ^ 0xC03_9ACE);
+    let n = args.budget(72, 960);
+    let mut runs = vec![];
+    for idx in 0..n {
+        let mut r = rng.fork(idx);
+        let sc = gen_paced(idx, servers, &mut r);
+        let frames: Vec<(u64, Vec<u8>)> = sc.frames.iter().map(|f| (f.gap_ms, f.wire.clone())).collect();
+        let addr = servers[sc.srv].addr;
+        // thorough: start in waves so that at most ~100 connections are paced at once
+        let delay = Duration::from_millis((idx / 96) * 2600);
+        let h = tokio::spawn(async move {
+            tokio::time::sleep(delay).await;
+            paced_conn(addr, frames).await
+        });
+        runs.push((sc, h));
+    }
+    Paced { servers: servers.clone(), runs }
+}
+
+pub async fn judge_paced(rep: &mut Report, args: &Args, paced: Paced, hb: &Heartbeat) {
+    let servers = paced.servers;
+    let mut sampled = false;
+    for (sc, h) in paced.runs {
+        let s = &servers[sc.srv];
+        let po = match timeout(Duration::from_secs(90), h).await {
+            Ok(Ok(o)) => o,
+            Ok(Err(e)) => {
+                rep.inconclusive(format!("paced scenario {} failed: {e}", sc.idx));
+                continue;
+            }
+            Err(_) => {
+                rep.inconclusive(format!("paced scenario {} did not finish", sc.idx));
+                continue;
+            }
+        };
+        if !sampled {
+            sampled = true;
+            rep.sample(json!({"paced_read_timeout_scenario": sc.desc(s), "frames_received": po.out.frames.len(), "end": format!("{:?}", po.out.end)}));
+        }
+        judge_paced_one(rep, args, &sc, s, &po, hb.max_gap_ms() > 1000);
+    }
+    if rep.get_count("rt.paced.scenarios") == 0 {
+        rep.inconclusive("paced read-timeout class: no scenario executed");
+    } else if rep.get_count("rt.paced.judged_strictly") * 4 < rep.get_count("rt.paced.scenarios") {
+        rep.inconclusive(format!(
+            "paced read-timeout class: only {} of {} connections kept their own pacing inside 0.8 timeouts (peer-side jitter / machine stall); too few to judge",
+            rep.get_count("rt.paced.judged_strictly"),
+            rep.get_count("rt.paced.scenarios")
+        ));
+    }
+}
+
+fn judge_paced_one(rep: &mut Report, args: &Args, sc: &PScen, s: &RtSrv, po: &POut, stalled: bool) {
+    let tr = s.tr();
+    let name = s.name();
+    let out = &po.out;
+    if let End::Harness(e) = &out.end {
+        rep.inconclusive(format!("{name}: paced scenario {} not executed: {e}", sc.idx));
+        return;
+    }
+    rep.eval();
+    rep.distinct(&(s.sid, "paced", sc.frames.iter().map(|f| (f.sent.role, f.gap_ms * 10 / s.d_ms)).collect::<Vec<_>>()));
+    rep.count("rt.paced.scenarios", 1);
+    rep.count(&format!("rt.paced.connections.{name}"), 1);
+    rep.count("rt.paced.frames_sent", po.writes.len() as u64);
+    for f in &sc.frames {
+        rep.count(&format!("rt.paced.frames.{}", f.sent.role), 1);
+        rep.count(&format!("rt.paced.spacing_tenths_of_timeout.{}", (f.gap_ms * 10 / s.d_ms).min(9)), 1);
+    }
+    rep.count("rt.paced.planned_duration_in_timeouts_x10", sc.planned_ms * 10 / s.d_ms);
+    rep.count("rt.paced.longest_silent_stretch_in_timeouts_x10", sc.longest_silent_stretch_ms * 10 / s.d_ms);
+    // the peer's own measurement: from the start of one write (before connect() for the first) to the completion of the next
+    let mut max_gap = 0u64;
+    let mut prev_start = 0u64;
+    for &(a, b) in &po.writes {
+        max_gap = max_gap.max(b.saturating_sub(prev_start));
+        prev_start = a;
+    }
+    if let Some(sd) = po.shutdown_ms {
+        max_gap = max_gap.max(sd.saturating_sub(prev_start));
+    }
+    let strict = !stalled && max_gap * 10 <= s.d_ms * 8;
+    rep.count(if strict { "rt.paced.judged_strictly" } else { "rt.paced.judged_leniently_peer_pacing_slipped_or_machine_stalled" }, 1);
+    let replay = || json!({"seed": args.seed, "read_timeout_ms": s.d_ms, "scenario": sc.desc(s), "measured": {"writes_start_end_ms": po.writes, "longest_gap_ms": max_gap, "end_of_stream_seen_at_ms": po.eos_ms, "peer_half_closed_at_ms": po.shutdown_ms}});
+    let ended = matches!(out.end, End::Eos | End::Unclean(_));
+    if !ended {
+        rep.inconclusive(format!("{name}: no end of stream within {EOS_T:?} after half-closing (paced scenario {})", sc.idx));
+    }
+    let timing = format!("read timeout {} ms, frames spaced {}..{} ms, longest gap the peer measured {} ms, {} of {} frames written", s.d_ms, sc.frames.iter().map(|f| f.gap_ms).min().unwrap_or(0), sc.frames.iter().map(|f| f.gap_ms).max().unwrap_or(0), max_gap, po.writes.len(), sc.frames.len());
+    // ---- the connection must stay open while the peer keeps sending inside the window
+    let closed_early = out.write_error.is_some() || out.closed_before_send.iter().any(|c| c.1) || matches!((po.eos_ms, po.shutdown_ms), (Some(e), Some(sd)) if e < sd);
+    if closed_early {
+        if strict {
+            let at = out.closed_before_send.iter().find(|c| c.1).map(|c| c.0).or(out.write_error.as_ref().map(|e| e.0));
+            rep.count(&format!("rt.paced.seen.connection_ended_by_server_while_peer_kept_sending.{tr}"), 1);
+            rep.violation(
+                format!("C03:{tr}:read-timeout:paced:connection-closed-while-frames-kept-arriving"),
+                format!(
+                    "{name}, paced scenario {}: the server ended the connection (end of stream seen at {:?} ms{}) although the peer never paused for longer than 0.8 read timeouts; {timing}; frames before the close: {}",
+                    sc.idx,
+                    po.eos_ms,
+                    at.map(|i| format!(", before frame #{i} was written")).unwrap_or_default(),
+                    sc.frames.iter().take(at.unwrap_or(sc.frames.len())).map(|f| f.sent.role.chars().next().unwrap_or('?').to_string() + if f.sent.role.starts_with("rejected") { "x" } else { "" }).collect::<Vec<_>>().join(" ")
+                ),
+                replay(),
+            );
+        } else {
+            rep.count("rt.paced.info_connection_ended_early_on_a_leniently_judged_connection", 1);
+        }
+    } else if ended {
+        rep.count("rt.paced.connections_open_until_the_peer_half_closed", 1);
+    }
+    match &out.tail {
+        StreamTail::Clean => {}
+        StreamTail::Partial { at, have, need, .. } => {
+            if out.end == End::Eos {
+                rep.violation(format!("C03:{tr}:read-timeout:response-stream-ends-inside-frame"), format!("{name}, paced scenario {}: the response stream ended cleanly inside a frame at offset {at} ({have} of {need:?} bytes)", sc.idx), replay());
+            }
+        }
+        StreamTail::Corrupt { at, header } => rep.violation(format!("C03:{tr}:read-timeout:response-stream-not-frames"), format!("{name}, paced scenario {}: bytes at offset {at} of the response stream are not a consistent REPE header: {header:?}", sc.idx), replay()),
+    }
+    let mut got: Vec<Vec<usize>> = vec![vec![]; sc.frames.len()];
+    for (pos, f) in out.frames.iter().enumerate() {
+        match sc.frames.iter().position(|r| r.sent.id == f.header.id) {
+            Some(i) => got[i].push(pos),
+            None => rep.violation(format!("C03:{tr}:read-timeout:response-with-unknown-id"), format!("{name}, paced scenario {}: response frame #{pos} carries id {:#x} which no sent frame used; header {:?}", sc.idx, f.header.id, f.header), replay()),
+        }
+    }
+    let last_answered = (0..sc.frames.len()).rev().find(|&i| !got[i].is_empty());
+    let mut last_pos: Option<(usize, usize)> = None;
+    for (i, pf) in sc.frames.iter().enumerate() {
+        let r = &pf.sent;
+        let (hcnt, hroute) = srv::ev_take(s.sid, EV_H, r.token);
+        let written = i < po.writes.len();
+        let what = format!("frame #{i} ({}, id {:#x}, {:?})", r.role, r.id, String::from_utf8_lossy(&r.query[..r.query.len().min(24)]));
+        if hcnt > r.invoked as u32 {
+            rep.violation(format!("C03:{tr}:read-timeout:handler-invocations-extra"), format!("{name}, paced scenario {}: {what}: handler body reached {hcnt} time(s), at most {} expected", sc.idx, r.invoked as u32), replay());
+        } else if hcnt == 1 && Some(hroute) != r.route.map(|t| t as u8) {
+            rep.violation(format!("C03:{tr}:read-timeout:handler-route-mismatch"), format!("{name}, paced scenario {}: {what}: token recorded by route id {hroute}, addressed {:?}", sc.idx, r.route), replay());
+        }
+        if r.notify == 1 {
+            if !got[i].is_empty() {
+                rep.violation(format!("C03:{tr}:read-timeout:notify-got-response"), format!("{name}, paced scenario {}: {what} has notify=1 but {} response(s) carry its id", sc.idx, got[i].len()), replay());
+            }
+            if r.invoked && hcnt == 0 && written && ended {
+                if strict {
+                    rep.count(&format!("rt.paced.seen.notify_handler_not_run.{tr}"), 1);
+                    rep.violation(
+                        format!("C03:{tr}:read-timeout:paced:notify-handler-not-run"),
+                        format!("{name}, paced scenario {}: {what} was written completely, its handler never ran; {timing}; end of stream seen at {:?} ms, this frame written at {:?} ms", sc.idx, po.eos_ms, po.writes.get(i)),
+                        replay(),
+                    );
+                } else {
+                    rep.count("rt.paced.info_notify_not_handled_on_a_leniently_judged_connection", 1);
+                }
+            } else if hcnt == r.invoked as u32 && written {
+                rep.count("rt.paced.notifies_handled_exactly_as_expected", 1);
+            }
+            continue;
+        }
+        match got[i].len() {
+            0 => {
+                if !ended || !written {
+                    continue;
+                }
+                if let Some(l) = last_answered.filter(|&l| l > i) {
+                    rep.violation(format!("C03:{tr}:read-timeout:request-skipped"), format!("{name}, paced scenario {}: {what} was sent completely and got no response, yet the later frame #{l} on the same connection was answered; {timing}", sc.idx), replay());
+                } else if strict {
+                    rep.count(&format!("rt.paced.seen.request_unanswered.{tr}"), 1);
+                    let since = sc.frames[..i].iter().rposition(|f| f.sent.notify != 1).map(|j| j + 1).unwrap_or(0);
+                    rep.violation(
+                        format!("C03:{tr}:read-timeout:paced:request-unanswered"),
+                        format!(
+                            "{name}, paced scenario {}: {what} was written completely (at {:?} ms) and got no response up to the end of the stream (seen at {:?} ms); the {} frames before it were notifies / rejected notifies spread over {} ms; {timing}",
+                            sc.idx,
+                            po.writes.get(i),
+                            po.eos_ms,
+                            i - since,
+                            sc.frames[since..=i].iter().map(|f| f.gap_ms).sum::<u64>()
+                        ),
+                        replay(),
+                    );
+                } else {
+                    rep.count("rt.paced.info_request_unanswered_on_a_leniently_judged_connection", 1);
+                }
+                continue;
+            }
+            1 => rep.count("rt.paced.requests_with_exactly_one_response", 1),
+            k => {
+                rep.violation(format!("C03:{tr}:read-timeout:duplicate-response"), format!("{name}, paced scenario {}: {what}: {k} responses carry its id", sc.idx), replay());
+                continue;
+            }
+        }
+        let pos = got[i][0];
+        let f = &out.frames[pos];
+        if let Some((pi, ppos)) = last_pos {
+            rep.count("rt.order_pairs_checked", 1);
+            if pos < ppos {
+                rep.violation(format!("C03:{tr}:read-timeout:arrival-order"), format!("{name}, paced scenario {}: response to {what} is frame #{pos} but the response to the earlier frame #{pi} is frame #{ppos}", sc.idx), replay());
+            }
+        }
+        last_pos = Some((i, pos));
+        if hcnt < r.invoked as u32 {
+            rep.violation(format!("C03:{tr}:read-timeout:handler-invocations-missing"), format!("{name}, paced scenario {}: {what} was answered, handler body reached {hcnt} time(s), expected {}", sc.idx, r.invoked as u32), replay());
+        }
+        let bad: Option<String> = if f.query != r.query {
+            Some(format!("response query {} differs from the request's {}", hex_trunc(&f.query, 40), hex_trunc(&r.query, 40)))
+        } else {
+            match &r.exp {
+                Exp::Code(c) => (!c.contains(&f.header.ec)).then(|| format!("ec={} but the statement requires {c:?}; body {:?}", f.header.ec, String::from_utf8_lossy(&f.body[..f.body.len().min(100)]))),
+                Exp::Record(want) => match serde_json::from_slice::<Tout>(&f.body) {
+                    Ok(t) if f.header.ec == 0 && &t == want => None,
+                    other => Some(format!("ec={} body decodes to {other:?}, the handler returned {want:?}", f.header.ec)),
+                },
+                Exp::Echo { .. } => None,
+            }
+        };
+        match bad {
+            Some(b) => rep.violation(format!("C03:{tr}:read-timeout:wrong-response"), format!("{name}, paced scenario {}: {what}: {b}", sc.idx), replay()),
+            None => rep.count("rt.paced.responses_matched", 1),
+        }
     }
 }
